@@ -6,8 +6,12 @@
 //       performed (one per syncMutex critical section / callback, in the order they really happened) with what the
 //       implementation was observed to do in each; the plugin feeds the steps to the Lean acceptor.
 #include "tsync_common.hpp"
+#include <atomic>
 
 using namespace ts;
+
+// a DetSched run that ends in a deadlock / step limit abandons its threads inside the Transport, which is then leaked on purpose
+extern "C" const char* __asan_default_options() { return "detect_leaks=0"; }
 
 namespace {
 
@@ -17,6 +21,8 @@ struct World
   vh::FakeEngine* e = nullptr;
   std::vector<std::string> evs;   // callback events since the last op (single-threaded ops)
   bool sched = false;             // inside a DetSched run: callbacks become marks
+  std::vector<std::unique_ptr<CancellationToken>> tok;   // one cancellation token per session id (0..31), for receiveSyncCancellable
+  long long tokVt[32];            // DetSched virtual time at which the token was cancelled (-1 = not under DetSched / not cancelled)
 };
 World* g = nullptr;
 
@@ -34,6 +40,7 @@ void resetWorld(u64 maxBuf, u64 gcThr, bool allowSwitch)
   g->e = fe.get();
   g->t = iora::network::test::TransportEngineInjector::withEngine(std::move(fe), cfg);
   g->t->start();
+  for (int i = 0; i < 32; ++i) { g->tok.push_back(std::make_unique<CancellationToken>()); g->tokVt[i] = -1; }
   World* w = g;
   g->t->onData([w](SessionId sid, iora::core::BufferView d, std::chrono::steady_clock::time_point) {
     std::string s = "cb:" + std::to_string(sid) + ":" + vh::toHex(d.data(), d.size());
@@ -84,17 +91,41 @@ bool parseMode(const std::string& s, ReadMode& m)
   return true;
 }
 
-std::string recvResult(SessionId sid, std::size_t len, u64 timeoutMs)
+// `cancellable`: through ITransport::receiveSyncCancellable with the session's token.  A Timeout answer that comes before the
+// requested time has passed (real time outside DetSched, virtual time inside) is tagged: the model never produces the tag.
+std::string recvResult(SessionId sid, std::size_t len, u64 timeoutMs, bool cancellable = false)
 {
   std::vector<std::uint8_t> buf(len ? len : 1);
   std::size_t n = len;
-  auto r = g->t->receiveSync(sid, buf.data(), n, std::chrono::milliseconds(timeoutMs));
+  const bool virt = ds::active();
+  const long long v0 = virt ? ds::now_ns() : 0;
+  const auto t0 = std::chrono::steady_clock::now();
+  auto r = cancellable ? g->t->receiveSyncCancellable(sid, buf.data(), n, *g->tok[sid % 32], std::chrono::milliseconds(static_cast<long long>(timeoutMs)))
+                       : g->t->receiveSync(sid, buf.data(), n, std::chrono::milliseconds(static_cast<long long>(timeoutMs)));
+  // a cancel is honoured within one sub-interval (100 ms) + slack of virtual time, whatever the call then answers
+  std::string late;
+  if (cancellable && virt && g->tokVt[sid % 32] >= 0)
+  {
+    long long latMs = (ds::now_ns() - std::max(g->tokVt[sid % 32], v0)) / 1000000;
+    if (latMs > 105) late = "!cancel-late-after-" + std::to_string(latMs) + "ms";
+  }
   if (r.isOk())
   {
     if (r.value() != n || n > len) return "ok-inconsistent-length";
-    return "ok:" + vh::toHex(buf.data(), n);
+    return "ok:" + vh::toHex(buf.data(), n) + late;
   }
-  return std::string("err:") + errName(r.error().code);
+  std::string res = std::string("err:") + errName(r.error().code) + late;
+  if (r.error().code == TransportError::Timeout)
+  {
+    long long elapsedMs = virt ? (ds::now_ns() - v0) / 1000000
+                               : std::chrono::duration_cast<std::chrono::milliseconds>(std::chrono::steady_clock::now() - t0).count();
+    const unsigned long long capMs = 3153600000000ULL;   // FC03b: timeouts are saturated at 100 years
+    if (static_cast<unsigned long long>(elapsedMs) + 1 < (timeoutMs < capMs ? timeoutMs : capMs)) res += "!early-after-" + std::to_string(elapsedMs) + "ms";
+    // virtual time: 5 ms of slack (every look at the clock costs 1 us); real time: 1.5 s. The plugin judges the tag only where it is
+    // meaningful (under DetSched another thread's timed wait moves the shared clock).
+    else if (static_cast<unsigned long long>(elapsedMs) > timeoutMs + (virt ? 5 : 1500)) res += "!late-after-" + std::to_string(elapsedMs) + "ms";
+  }
+  return res;
 }
 
 void fireData(SessionId sid, const vh::Bytes& d)
@@ -110,7 +141,10 @@ void fireClose(SessionId sid)
 
 // ------------------------------------------------------------------------------------------------------------------
 // DetSched programs.  `sched <seed|c:choices> <timeoutOneIn> <spuriousOneIn> <maxBuf> <gcThr> io <ops…> app <ops…> [app <ops…>]…`
-// thread ops:  d:<sid>:<hex>  c:<sid>  r:<sid>:<len>:<timeoutMs>  m:<sid>:<a|s|d>  f:<0|1>  y (yield)
+// thread ops:  d:<sid>:<hex>  c:<sid>  r:<sid>:<len>:<timeoutMs>  rc:<sid>:<len>:<timeoutMs> (receiveSyncCancellable, token of <sid>)
+//              x:<sid> (cancel that token)  m:<sid>:<a|s|d>  f:<0|1>  y (yield)
+// first argument: <seed> | c:<choice list> (replay) | e:<choice prefix> (exploration: the prefix is completed WITHOUT preemptions and the
+// answer carries every decision's alternatives, so that the plugin can enumerate all schedules with at most K preemptions)
 struct ThreadProg { std::vector<std::string> ops; };
 
 void runThreadOp(const std::string& op)
@@ -142,6 +176,19 @@ void runThreadOp(const std::string& op)
     mark('B', "recv " + parts[1] + " " + parts[2]);
     std::string r = recvResult(a, b, c);
     mark('E', "recvRet:" + parts[1] + ":" + r);
+  }
+  else if (k == "rc" && parts.size() == 4 && vh::parseNat(parts[1], a) && vh::parseNat(parts[2], b) && vh::parseNat(parts[3], c))
+  {
+    mark('B', "recvc " + parts[1] + " " + parts[2]);
+    std::string r = recvResult(a, b, c, true);
+    mark('E', "wrapRet:" + parts[1] + ":" + r);
+  }
+  else if (k == "x" && parts.size() == 2 && vh::parseNat(parts[1], a))
+  {
+    mark('B', "cancel " + parts[1]);   // the store to the token's flag happens in this scheduling slice (cancel() then locks the token's own mutex)
+    g->tokVt[a % 32] = ds::now_ns();
+    g->tok[a % 32]->cancel();
+    mark('E', "-");
   }
   else if (k == "m" && parts.size() == 3 && vh::parseNat(parts[1], a))
   {
@@ -190,8 +237,11 @@ std::string runSched(const std::vector<std::string>& t)
   opt.timeoutOneIn = static_cast<unsigned>(toIn);
   opt.spuriousOneIn = static_cast<unsigned>(spIn);
   opt.maxSteps = 20000;
+  const bool explore = t[1].rfind("e:", 0) == 0;
+  opt.continueCurrent = explore;
   ds::options(opt);
-  if (t[1].rfind("c:", 0) == 0)
+  std::size_t prefixLen = 0;
+  if (t[1].rfind("c:", 0) == 0 || explore)
   {
     std::vector<std::uint32_t> ch;
     std::string cur;
@@ -200,6 +250,7 @@ std::string runSched(const std::vector<std::string>& t)
       if (c == ',') { if (!cur.empty()) ch.push_back(static_cast<std::uint32_t>(std::stoul(cur))); cur.clear(); }
       else cur += c;
     }
+    prefixLen = ch.size();
     ds::init(ch);
   }
   else
@@ -220,7 +271,14 @@ std::string runSched(const std::vector<std::string>& t)
   auto& im = *w->t->_impl;
   int iSync = ds::object_index(im.syncMutex.native_handle());
   // merge marks and DetSched events into model steps
-  struct Cur { std::string kind; std::vector<std::string> args; int nlock = 0; long last = -1; bool active = false; };
+  struct Cur
+  {
+    std::string kind; std::vector<std::string> args; int nlock = 0; long last = -1; bool active = false;
+    long head = -1;        // recvc: placeholder for the wrapper's loop head (evaluated right after the previous sub-call released syncMutex)
+    bool waited = false;   // recvc: the current sub-call has parked at least once
+    bool first = true;     // recvc: no sub-call has been made yet
+    bool forced = false;   // the thread's last time-out was FORCED (DetSched: nothing else could run)
+  };
   std::map<int, Cur> cur;
   std::vector<StepLine> steps;
   const auto& tr = ds::trace();
@@ -234,12 +292,33 @@ std::string runSched(const std::vector<std::string>& t)
       c.active = true;
       c.args = vh::split(m.text);
       c.kind = c.args[0];
+      if (c.kind == "cancel") { steps.push_back(StepLine{m.tid, "cancel " + c.args[1], "-"}); c.last = static_cast<long>(steps.size()) - 1; }
+      if (c.kind == "recvc")
+      {
+        // entry token check, then (same scheduling slice) the first loop head
+        steps.push_back(StepLine{m.tid, "wCall " + c.args[1] + " " + c.args[2], "-"});
+        c.last = static_cast<long>(steps.size()) - 1;
+        steps.push_back(StepLine{m.tid, "", "-"});
+        c.head = static_cast<long>(steps.size()) - 1;
+      }
     }
     else if (m.kind == 'E')
     {
+      if (c.kind == "recvc" && c.head >= 0)
+      {
+        // the call returned without another sub-call: decided by a loop head (deadline passed / token cancelled), by the entry
+        // check, or - when the last sub-call answered something other than Timeout - not by a loop head at all
+        const bool tmo = m.text.find(":err:Timeout") != std::string::npos;
+        const bool can = m.text.find(":err:Cancelled") != std::string::npos;
+        if (c.first) { if (tmo) { steps[c.head].step = "wLoop " + c.args[1] + " 1"; c.last = c.head; } }          // Cancelled: the entry check (wCall)
+        else if (c.waited && tmo) { steps[c.head].step = "wLoop " + c.args[1] + " 1"; c.last = c.head; }
+        else if (c.waited && can) { steps[c.head].step = "wLoop " + c.args[1] + " 0"; c.last = c.head; }
+        c.head = -1;
+      }
       if (c.last >= 0 && m.text != "-")
       {
         if (steps[c.last].observed == "-") steps[c.last].observed = m.text;
+        else if (steps[c.last].observed == "-!forced-timeout") steps[c.last].observed = m.text + "!forced-timeout";
         else steps[c.last].observed += ";" + m.text;
       }
       c.active = false;
@@ -262,28 +341,84 @@ std::string runSched(const std::vector<std::string>& t)
     while (mi < ms.size() && ms[mi].at <= i) handleMark(ms[mi++]);
     if (i == tr.size()) break;
     const ds::Event& e = tr[i];
+    if (e.kind == ds::TIMEOUT) { cur[e.tid].forced = e.detail == 1; continue; }   // forced = no thread was enabled when the time-out fired
     if (e.obj != iSync || iSync < 0) continue;
+    if (e.kind == ds::UNLOCK)
+    {
+      Cur& cu = cur[e.tid];
+      if (cu.active && cu.kind == "recvc" && cu.head < 0)
+      {
+        steps.push_back(StepLine{e.tid, "", "-"});   // a sub-call ended: the loop head is evaluated right here
+        cu.head = static_cast<long>(steps.size()) - 1;
+      }
+      continue;
+    }
     if (e.kind != ds::LOCK && e.kind != ds::REACQ) continue;
     Cur& c = cur[e.tid];
     if (!c.active) continue;
     std::string st;
+    bool tagForced = false;
+    if (c.kind == "recvc")
+    {
+      if (e.kind == ds::LOCK)
+      {
+        if (c.head >= 0) { steps[c.head].step = "wLoop " + c.args[1] + " 0"; c.head = -1; }
+        c.first = false;
+        c.waited = false;
+        st = "recvEnter " + c.args[1] + " " + c.args[2];
+      }
+      else { st = "recvWake " + c.args[1] + " " + (e.detail ? "1" : "0"); c.waited = true; tagForced = e.detail && c.forced; c.forced = false; }
+    }
     if (c.kind == "data") st = (c.nlock == 0) ? "ioData " + c.args[1] + " " + c.args[2] : "unexpected-lock";
     else if (c.kind == "close") st = (c.nlock == 0) ? "" : (c.nlock == 1) ? "ioClose " + c.args[1] : "unexpected-lock";   // 1st section = pendingConnects lookup (C04)
     else if (c.kind == "recv")
     {
       if (e.kind == ds::LOCK) st = (c.nlock == 0) ? "recvEnter " + c.args[1] + " " + c.args[2] : "unexpected-lock";
-      else st = "recvWake " + c.args[1] + " " + (e.detail ? "1" : "0");
+      else { st = "recvWake " + c.args[1] + " " + (e.detail ? "1" : "0"); c.waited = true; tagForced = e.detail && c.forced; c.forced = false; }
     }
     else if (c.kind == "mode") st = (c.nlock == 0) ? "setMode " + c.args[1] + " " + c.args[2] : "flushStep " + c.args[1];
     else if (c.kind == "fence") st = (c.nlock == 0) ? "fence " + c.args[1] : "unexpected-lock";
+    else if (c.kind == "cancel") continue;
     c.nlock++;
     if (st.empty()) continue;
-    steps.push_back(StepLine{e.tid, st, "-"});
+    // a FORCED time-out that finds the wait predicate true is a lost notification; the tag lets the plugin's monitor see which wake-ups
+    // were forced (the model never prints it)
+    steps.push_back(StepLine{e.tid, st, tagForced ? "-!forced-timeout" : "-"});
     c.last = static_cast<long>(steps.size()) - 1;
   }
   std::string out = status + " |";
-  for (auto& s : steps) out += " " + std::to_string(s.tid) + "," + [&] { std::string x = s.step; for (char& ch : x) if (ch == ' ') ch = ','; return x; }() + "=>" + s.observed;
+  for (auto& s : steps)
+  {
+    if (s.step.empty()) continue;
+    out += " " + std::to_string(s.tid) + "," + [&] { std::string x = s.step; for (char& ch : x) if (ch == ' ') ch = ','; return x; }() + "=>" + s.observed;
+  }
   out += " | " + ds::choicesString();
+  // final state of every session the program names (compared with the model's state after the replay)
+  {
+    std::vector<std::string> fin;
+    if (ok)
+    {
+      std::vector<u64> sids;
+      for (auto& p : progs)
+        for (auto& op : p.ops)
+        {
+          std::size_t i = op.find(':');
+          if (i == std::string::npos) continue;
+          std::size_t j = op.find(':', i + 1);
+          u64 sid = 0;
+          if (op[0] == 'f' || !vh::parseNat(op.substr(i + 1, j == std::string::npos ? std::string::npos : j - i - 1), sid)) continue;
+          if (std::find(sids.begin(), sids.end(), sid) == sids.end()) sids.push_back(sid);
+        }
+      std::sort(sids.begin(), sids.end());
+      for (u64 sid : sids)
+      {
+        std::string x = stateOf(sid);
+        for (char& ch : x) if (ch == ' ') ch = ',';
+        fin.push_back(std::to_string(sid) + ":" + x);
+      }
+    }
+    out += " | " + join(fin, ";");
+  }
   if (!ok)
   {
     // threads are parked inside the transport for ever: leak it
@@ -292,6 +427,21 @@ std::string runSched(const std::vector<std::string>& t)
     out += " | " + rep;
     new std::shared_ptr<Transport>(w->t);
     g = nullptr;   // World leaked on purpose
+  }
+  else out += " | -";
+  if (explore)
+  {
+    // every alternative of every decision taken after the prefix:  <index>:<alt>.<alt>…
+    const auto& alts = ds::alternatives();
+    std::string a;
+    for (std::size_t i = prefixLen; i < alts.size(); ++i)
+    {
+      if (alts[i].size() < 2) continue;
+      if (!a.empty()) a += ",";
+      a += std::to_string(i) + ":";
+      for (std::size_t k = 0; k < alts[i].size(); ++k) { if (k) a += "."; a += std::to_string(alts[i][k]); }
+    }
+    out += " | " + (a.empty() ? std::string("-") : a);
   }
   return out;
 }
@@ -322,6 +472,37 @@ std::string stepOp(const std::vector<std::string>& t)
   if (t[0] == "recv" && t.size() == 4 && vh::parseNat(t[1], a) && vh::parseNat(t[2], b) && vh::parseNat(t[3], c))
   {
     std::string r = recvResult(a, b, c);
+    return r + " " + takeEvs() + " | " + stateOf(a);
+  }
+  if (t[0] == "recvc" && t.size() == 4 && vh::parseNat(t[1], a) && vh::parseNat(t[2], b) && vh::parseNat(t[3], c))
+  {
+    std::string r = recvResult(a, b, c, true);
+    return r + " " + takeEvs() + " | " + stateOf(a);
+  }
+  if (t[0] == "cancel" && t.size() == 2 && vh::parseNat(t[1], a))
+  {
+    g->tok[a % 32]->cancel();
+    return "ok | " + stateOf(a);
+  }
+  if (t[0] == "recvlong" && t.size() == 5 && vh::parseNat(t[1], a) && vh::parseNat(t[2], b) && vh::parseNat(t[3], c))
+  {
+    // a receive with a (very) long timeout on another thread; once it is parked (or has returned) the chunk is delivered
+    vh::Bytes d;
+    if (!vh::ofHex(t[4], d)) return "bad-op";
+    std::string r;
+    std::atomic<bool> done{false};
+    std::thread th([&] { r = recvResult(a, b, c); done.store(true); });
+    for (int i = 0; i < 4000 && !done.load(); ++i)
+    {
+      {
+        std::lock_guard<std::mutex> lk(g->t->_impl->syncMutex);
+        auto it = g->t->_impl->receiveBuffers.find(a);
+        if (it != g->t->_impl->receiveBuffers.end() && it->second->waiters > 0) break;
+      }
+      std::this_thread::sleep_for(std::chrono::microseconds(500));
+    }
+    fireData(a, d);
+    th.join();
     return r + " " + takeEvs() + " | " + stateOf(a);
   }
   if (t[0] == "mode" && t.size() == 3 && vh::parseNat(t[1], a))
